@@ -21,20 +21,19 @@ To measure the machinery against realistic breakage, fresh sub-agents were each 
 (statement and quantifier), the descriptions of the changes to `/repo` already tried for it, and their own scratch git
 worktree of `/repo` — nothing from `/verif` — and asked for small, plausible changes that break the property, still
 compile, pass the existing 46 tests and need something specific to manifest, each with a demonstration test that fails
-on the changed tree and passes on the original.  Six rounds were run (`vf/seedprompts.py` writes the prompts): rounds
+on the changed tree and passes on the original.  Seven rounds were run (`vf/seedprompts.py` writes the prompts): rounds
 1–3 one change per agent (19 + 19 + 12 agents; round 2 asked for "a less central code path", round 3 for a different
-clause or mechanism than those already tried), rounds 4–6 two independent changes per agent for all 19 properties
+clause or mechanism than those already tried), rounds 4–7 two independent changes per agent for all 19 properties
 (round 5 asked for glue code: error paths, defaults, the less-used twin of two similar functions, rarely-set fields;
 round 6 for effects that need a SEQUENCE of operations or a COMBINATION of inputs, and for helpers shared by several
-callers).  Every returned change was confirmed by me in its worktree (`vf/seedconfirm.sh` / `vf/seedconfirm2.sh`:
+callers; round 7 for boundary values, rarely used entry points and small 'harmless' conveniences).  Every returned change was confirmed by me in its worktree (`vf/seedconfirm.sh` / `vf/seedconfirm2.sh`:
 build, existing suite, demo fails on the changed tree and passes on the original; one concurrency demo needs `-race`).
 {n} distinct changes are kept under `seeded/<id>/` (`patch.diff`, the demo test with its two outputs, `meta.json`,
 `result.json`); three round-2 answers repeated a round-1 change and were not kept twice.  `vf/seedtest.py <id>`
 applies a patch to `/repo`, runs the checks and restores `/repo`; nothing was ever committed there.
 
 **Result: {"all %d are" % n if not undetected else "%d of %d are" % (n - len(undetected), n)} reported by the property's own quick check** — {n - len(missed)} at first try, {len(missed)} only after a
-check was strengthened (rounds 1 to 6: 3 of 19, 8 of 16, 6 of 12, 9 of 38, 12 of 38, 7 of 38; later rounds are in the
-table) — the narrower and
+check was strengthened (rounds 1 to 7: 3 of 19, 8 of 16, 6 of 12, 9 of 38, 12 of 38, 7 of 38, 14 of 38) — the narrower and
 the more "glue-like" the trigger asked for, the more often a generator lacked the input class.  Every miss was a gap in
 a generator (an input class nobody generated: a root spelled with a trailing slash, a tag that already looks quoted, a
 body of undeclared length, a wrapped error, a value reused across two calls …) or in a judge (a difference computed
